@@ -1485,7 +1485,8 @@ def main():
             for d in deps[n]: visit(d, stack + (n,))
             done.add(n); order.append(n)
         for n in names: visit(n)
-        for n in order: out.append(emitted[n][0]); out.append('')
+        refb = _ref_blocks(os.path.join(out_path, 'JsModel.lean'))
+        for n in order: out.append(orient_like_reference(emitted[n][0], refb)); out.append('')
         out.append('end Gen')
         write_if_changed(os.path.join(out_path, 'JsModel.lean'), '\n'.join(out) + '\n')
         if report_path:
@@ -1523,7 +1524,8 @@ def main():
         for d in deps[n]: visit(d, stack + (n,))
         done.add(n); order.append(n)
     for n in names: visit(n)
-    for n in order: out.append(emitted[n][0]); out.append('')
+    refb = _ref_blocks(os.path.join(out_path, 'Model.lean'))
+    for n in order: out.append(orient_like_reference(emitted[n][0], refb)); out.append('')
     out.append('end Gen')
     write_if_changed(os.path.join(out_path, 'Model.lean'), '\n'.join(out) + '\n')
     if report_path:
@@ -1532,6 +1534,64 @@ def main():
         json.dump(report, open(report_path, 'w'), indent=1, default=str)
     sys.stderr.write(f'mir2lean: translated {len(report["translated"])}, unsupported {len(report["unsupported"])}, handwritten {len(report["handwritten"])}, skipped {len(report["skipped"])}\n')
     for b in report['unsupported']: sys.stderr.write(f'  - {b[0]}: {str(b[1])[:160]}\n')
+
+# ----------------------------------------------------------------------------- orientation of commutative operations
+# IEEE-754 `+` and `*` are commutative bit for bit (and so are they in every carrier of the model), so `a * b` and `b * a` in
+# the source are the same function.  To keep proofs indifferent to such an edit, a regenerated definition that equals the
+# reference definition (the committed Gen file) up to the operand order of `+`/`*` is emitted with the reference's operand order.
+
+def _tok(text):
+    return re.findall(r'\(|\)|[^\s()]+', text)
+
+def _canon(text):
+    """canonical form of a fully parenthesised Lean term/definition modulo operand order of binary + and *"""
+    toks = _tok(text)
+    pos = 0
+    def parse():
+        nonlocal pos
+        items = []
+        while pos < len(toks):
+            t = toks[pos]; pos += 1
+            if t == '(':
+                items.append(parse())
+            elif t == ')':
+                break
+            else:
+                items.append(t)
+        if len(items) == 3 and items[1] in ('+', '*'):
+            a, b = sorted([items[0], items[2]])
+            return '(' + a + ' ' + items[1] + ' ' + b + ')'
+        return '(' + ' '.join(items) + ')'
+    return parse()
+
+def _ref_blocks(path):
+    """definitions of the reference Gen file, by name"""
+    import subprocess
+    txt = None
+    d = os.path.dirname(os.path.abspath(path))
+    try:
+        top = subprocess.run(['git', '-C', d, 'rev-parse', '--show-toplevel'], capture_output=True, text=True)
+        if top.returncode == 0:
+            rel = os.path.relpath(os.path.abspath(path), top.stdout.strip())
+            r = subprocess.run(['git', '-C', d, 'show', 'HEAD:' + rel], capture_output=True, text=True)
+            if r.returncode == 0: txt = r.stdout
+    except Exception:
+        txt = None
+    if txt is None and os.path.exists(path): txt = open(path).read()
+    blocks = {}
+    for b in (txt or '').split('\n\n'):
+        m = re.match(r'^\s*def (\S+)', b)
+        if m: blocks[m.group(1)] = b.strip('\n')
+    return blocks
+
+def orient_like_reference(txt, ref):
+    out = []
+    for b in txt.split('\n\n'):
+        m = re.match(r'^\s*def (\S+)', b)
+        r = ref.get(m.group(1)) if m else None
+        if r is not None and r != b.strip('\n') and _canon(r) == _canon(b): out.append(r)
+        else: out.append(b)
+    return '\n\n'.join(out)
 
 def write_if_changed(path, new):
     old = open(path).read() if os.path.exists(path) else None
